@@ -499,6 +499,79 @@ def check_h1(ctx, I, label):
 
 def check_parser_start_state(ctx, prog):
     """The parser builds hash = from_piece_board(board, side, 0), history = [hash], PlayPhase::initial(hash, history)."""
+    from . import core
+    probe = core.Ctx(ctx.prop, ctx.tier, 'other')
+    _parser_start_state_by_flow(probe, prog)
+    if not probe.findings:
+        _parser_start_state_by_flow(ctx, prog)
+        return
+    # the data flow is not spelled the way the flow rule knows it (e.g. a helper wraps append + initial): the state the parser
+    # returns for a printed position is inspected instead
+    ctx.rule('C08.4p', 'FromStr for GameState (by value: the parser interpreted on the printer\'s own text, both sides): the returned '
+                       'state\'s hash is Zobrist::from_piece_board(its board, its side, 0); the turn-start hash equals it; the history '
+                       'is exactly [that hash]; step 0, nothing pending, no capture recorded')
+    ctx.notes.append('C08.4p decided by value (the syntactic flow rule does not match this tree: %s)'
+                     % sorted(set(f['instance'] for f in probe.findings)))
+    from .rules_text import parse_printed_text, ok_leaves
+    from .rules_rep import list_head
+    from .rules_c03 import recorded_boards
+    GS, PP = 'engine::GameState', 'engine::PlayPhase'
+    fpb = prog.one('Zobrist::from_piece_board')
+    if not ctx.anchor('fn Zobrist::from_piece_board', fpb is not None):
+        return
+    for gold in (True, False):
+        side = 'gold' if gold else 'silver'
+        I, r, why = parse_printed_text(prog, gold)
+        if r is None:
+            ctx.ob('[%s] parser interpreted on the printed text' % side, False)
+            ctx.finding('C08.4p', 'FromStr for GameState', 'undecided', why)
+            return
+        leaves = ok_leaves(r)
+        ok = len(leaves) >= 1
+        ctx.ob('[%s] the parser accepts the printed text' % side, ok)
+        if not ok:
+            ctx.finding('C08.4p', 'FromStr for GameState', 'rejected', 'the parser does not accept the printer\'s own output')
+            return
+        for _g, gs in leaves:
+            bad = []
+            try:
+                # the side read from the header is a predicate on the matched text (C15.2 / C15.hdr decide that it is the printed
+                # side); here: whatever side the state records, its hash is the from-scratch hash for that side at step 0
+                p1 = fld(prog, GS, gs, 'p1_turn_to_move')
+                if not (isinstance(p1, BV) and p1.w == 1):
+                    bad.append('side to move is %r' % (p1,))
+                hv = fld(prog, GS, gs, 'hash')
+                st = State({})
+                pbv = fld(prog, GS, gs, 'piece_board').fields[0]
+                want, _ = I.call_fn(fpb, [inputs.ref_to(I, st, 'pb', pbv), p1, BV.const(0, 64)], st)
+                if not (isinstance(hv, Struct) and isinstance(want, Struct) and hv == want):
+                    bad.append('hash is not from_piece_board(parsed board, side, 0)')
+                pl = play_of(prog, gs)
+                if pl is None:
+                    bad.append('not a play-phase state')
+                else:
+                    if fld(prog, PP, pl, 'initial_hash_of_move') != hv:
+                        bad.append('turn-start hash differs from the state hash')
+                    hd = list_head(prog, fld(prog, PP, pl, 'hash_history'))
+                    if not (hd is not None and hd[0] == hv and isinstance(hd[1], Enum) and hd[1].var == 0):
+                        bad.append('history is not [hash]')
+                    prev = recorded_boards(I, prog, pl)
+                    if not (isinstance(prev, Seq) and len(prev.items) == 0):
+                        bad.append('step is not 0')
+                    pps = fld(prog, PP, pl, 'push_pull_state')
+                    if not (isinstance(pps, Enum) and pps.var == inputs.enum_variant(prog, 'engine::PushPullState', 'None')):
+                        bad.append('a push / pull is pending')
+                    tr = fld(prog, PP, pl, 'piece_trapped_this_turn')
+                    if not (isinstance(tr, BV) and tr.known() and tr.uval() == 0):
+                        bad.append('captured-this-turn flag set')
+            except (Undecided, KeyError, AttributeError, IndexError) as e:
+                bad.append('cannot inspect the parsed state: %s' % e)
+            ctx.ob('[%s] parsed state: hash from scratch with step 0, turn-start hash, history [hash], fresh turn record' % side, not bad, sample=True)
+            for b_ in bad:
+                ctx.finding('C08.4p', 'FromStr for GameState', 'state:' + b_.split(' ')[0] + ':' + side, 'the parsed state: %s' % b_)
+
+
+def _parser_start_state_by_flow(ctx, prog):
     ctx.rule('C08.4p', 'FromStr for GameState: hash = Zobrist::from_piece_board(board, side, 0); the same value is appended to a '
                        'new history, passed to PlayPhase::initial and to GameState::new')
     fn = None
